@@ -353,6 +353,10 @@ class Array(metaclass=MetaArray):
                 order = cls._order
                 strides = cls._strides
                 items = np.prod(shape)
+                if len(args) == 0:
+                    raise ValueError(
+                        "Cannot initialize array of dynamic items without arguments"
+                    )
                 value = args[0]
             else:  # complete dimensions
                 if len(args) == 0:
